@@ -75,3 +75,8 @@ Definition zeta_neg (n : nat) : R := - Qr (bern (S n)) / IZR (Z.of_nat (S n)).
 (* zeta(2k), k >= 1 *)
 Definition zeta_even (k : nat) : R :=
   (-1) ^ (S k) * Qr (bern (2 * k)) * (2 * PI) ^ (2 * k) / (2 * IZR (zfact (2 * k))).
+
+(* ---------------- digamma at 1/4 - m (Gauss: psi(1/4) = -gamma - pi/2 - 3 ln 2) ---------------- *)
+(* psi(1/4 - m) - psi(1); the reflection term pi*cot(pi x) of the code does not vanish here (it does at half-integers) *)
+Definition psi_mquarter_diff (m : nat) : R :=
+  - PI / 2 - 3 * ln 2 + sumf (fun k => 1 / (IZR (Z.of_nat (S k)) - 1 / 4)) m.
